@@ -382,10 +382,19 @@ func Run(c *gen.Ctx) error {
 	if len(meta.Direct) > 0 {
 		return meta.Write(c.OutDir)
 	}
+	{
+		var run []built
+		for _, b := range bs {
+			if !b.cfg.BuildOnly {
+				run = append(run, b)
+			}
+		}
+		bs = run
+	}
 	cands := candidateEchoes()
 	cf := &gen.CaseFile{Dir: c.OutDir, Prop: "C20", Kind: "ent", Requires: []string{"Base.Prelude", "Model.Entities", "Corr.Corr_C20"}, Type: "c20_case",
 		Checks: []gen.Check{{Label: "corr", Fn: "c20_corr"}, {Label: "mon", Fn: "c20_mon"}, {Label: "monmixed", Fn: "c20_monmixed"}, {Label: "monmodel", Fn: "c20_monmodel"}},
-		Shard: 300, Preamble: "Definition ents : list entity := " + entsCoq + "."}
+		Shard:  300, Preamble: "Definition ents : list entity := " + entsCoq + "."}
 	var descr []any
 	lens := map[int]int{}
 	plans := map[string]int{}
